@@ -126,6 +126,10 @@ func main() {
 			spec = &pp
 		}
 	}
+	if spec == nil && strings.HasPrefix(*prop, "RULE:") {
+		// debugging: run one rule by name (never registered in the manifest)
+		spec = &PropSpec{ID: *prop, Rules: []string{strings.TrimPrefix(*prop, "RULE:")}}
+	}
 	if spec == nil {
 		fatal("unknown or unclaimed property %q", *prop)
 	}
